@@ -8,6 +8,7 @@ Flags of a run: lazy, cache, strategy (schedule), seed, rev (start order variant
 
 Behaviour script (all keys optional):
   step_size (time-based), self_steps {"t" or "t,k": next}, outputs {"t,k": [out_time|None, [attrs]]},
+  get_data {"t,k": [[target sid, attr], ...]} (asynchronous get_data requests issued during the step),
   default_output [out_time|None, [attrs]], none_outputs ["t,k", ...] (steps whose 'po' value is None), bad {"t,k": ["step"|"time", value]} (malformed reply injection),
   set_data {"t,k": [[dest_sim_index, attr, token], ...]} (async set_data issued during that step)
 """
@@ -31,6 +32,7 @@ class Controller:
         self.log = []
         self.rng = random.Random(seed)
         self.strategy = strategy
+        self.async_depth = 0
         self.script = list(script or [])
         self.fine = fine
         self.instant = instant     # simulators that answer without ever suspending ('all' or a collection of sids)
@@ -162,6 +164,16 @@ class GSim(mosaik_api_v3.Simulator):
                 dest, attr, tok = it[:3]; w = it[3] if len(it) > 3 else 0
                 ctrl.log.append(('SETDATA', self.sid, dest, attr, tok, w))
                 yield self.mosaik.set_data({f'{self.sid}.' + ('e' if w == 0 else f'a{w}'): {f'{dest}.e': {attr: tok}}})
+        for it in b.get('get_data', {}).get(_key(time, k), []):
+            # asynchronous get_data request towards another simulator (answered from its cache, or by asking it)
+            dest, attr = it[:2]
+            ctrl.log.append(('GETDATA', self.sid, dest, attr))
+            ctrl.async_depth += 1          # (per run: a suspended generator of an aborted run is finalised later)
+            try:
+                res = yield self.mosaik.get_data({f'{dest}.e': [attr]})
+            finally:
+                ctrl.async_depth -= 1
+            ctrl.log.append(('GOTDATA', self.sid, dest, attr, copy.deepcopy(res)))
         bad = b.get('bad', {}).get(_key(time, k))
         if bad and bad[0] == 'step':
             r = bad[1]
@@ -176,6 +188,10 @@ class GSim(mosaik_api_v3.Simulator):
 
     def get_data(self, outputs):
         ctrl = CTX.ctrl
+        if ctrl.async_depth > 0:
+            # asked on behalf of another simulator's asynchronous get_data request (value not in the cache): not a block of
+            # this simulator's own step
+            return {eid: {a: f'{self.sid}@async' for a in attrs} for eid, attrs in outputs.items()}
         yield ctrl.gate((self.sid, 'get_data'))
         b = self.beh
         spec = b.get('outputs', {}).get(_key(self.time, self.k), b.get('default_output'))
